@@ -36,25 +36,32 @@ def calFirstAfter : List Day → Day → Option Day
   | [], _ => none
   | x :: xs, d => if d < x then some x else calFirstAfter xs d
 
-/-- `date ± Duration::days(n)`: `TimeDelta::days` panics beyond ±(i64::MAX / 86_400_000) days,
-the date addition panics when the result is not representable -/
-def addDays (d : Day) (n : Int) (site : String) : M Day :=
-  if n < -106751991167 ∨ n > 106751991167 then .error (site ++ ": TimeDelta::days out of bounds")
+/-- `add_days_saturating(date, days)`: `Duration::try_days` is `None` beyond ±(i64::MAX / 86_400_000)
+days and `checked_add_signed` is `None` when the result is not representable; both fall back to
+`NaiveDate::MIN` / `NaiveDate::MAX` according to the sign of `days` -/
+def addDaysSat (d : Int) (n : Int) : Int :=
+  if n < -106751991167 ∨ n > 106751991167 then (if n < 0 then minDay else maxDay)
   else match addDays? d n with
-    | some r => .ok r
-    | none => .error (site ++ ": NaiveDate overflow")
+    | some r => r
+    | none => if n < 0 then minDay else maxDay
 
-/-- `DateOffset::apply` -/
-def DateOffset.apply (o : DateOffset) (d : Day) : M Day := do
-  let d1 ← addDays d o.days "day.rs:DateOffset::apply"
+/-- `offset.saturating_neg()` on `i64` -/
+def satNeg (n : Int) : Int := if n ≤ -9223372036854775808 then 9223372036854775807 else -n
+
+/-- `DateOffset::apply` (the two `debug_assert!`s cannot fail: either the shifted date has the
+target weekday or it saturated at the corresponding end of the representable dates) -/
+def DateOffset.apply (o : DateOffset) (d : Int) : M Int :=
+  let d1 := addDaysSat d o.days
   match o.wday with
-  | .none => pure d1
+  | .none => .ok d1
   | .prev target =>
     let diff := (7 + weekday d1 - target) % 7
-    addDays d1 (-(diff : Int)) "day.rs:DateOffset::apply prev"
+    let r := addDaysSat d1 (-(diff : Int))
+    if weekday r == target % 7 || r == minDay then .ok r else .error "day.rs:DateOffset::apply debug_assert prev"
   | .next target =>
     let diff := (7 + target - weekday d1) % 7
-    addDays d1 diff "day.rs:DateOffset::apply next"
+    let r := addDaysSat d1 diff
+    if weekday r == target % 7 || r == maxDay then .ok r else .error "day.rs:DateOffset::apply debug_assert next"
 
 /-- `valid_ymd_before` / `valid_ymd_after`: candidates `day-1, …, 28` after the exact date -/
 def firstValidBelow (y : Int) (m : Nat) (succ : Bool) : Nat → Option Day
@@ -137,9 +144,6 @@ def hintsMin : List (Option Day) → Option Day
 
 /-! ### year ranges -/
 
-def u16 (n : Int) (site : String) : M Nat :=
-  if 0 ≤ n ∧ n ≤ 65535 then .ok n.toNat else .error (site ++ ": u16 overflow")
-
 def YearRange.filter (r : YearRange) (d : Day) : M Bool :=
   let y := year d
   if y < 0 ∨ y > 65535 then .ok false
@@ -158,15 +162,15 @@ def YearRange.hint (r : YearRange) (d : Day) : M (Option Day) :=
     if r.lo > r.hi then .ok none
     else if r.hi < cur then .ok (some dateEnd)
     else do
-      let next ←
-        if cur < r.lo then pure r.lo
-        else if r.step = 1 then u16 (r.hi + 1) "date_filter.rs:YearRange::hint end+1"
+      -- computed on `i32`: nothing overflows
+      let next : Int ←
+        if cur < r.lo then pure (r.lo : Int)
+        else if r.step = 1 then pure ((r.hi : Int) + 1)
         else if r.step = 0 then .error "date_filter.rs:YearRange::hint remainder by zero"
-        else if (cur - r.lo) % r.step = 0 then u16 (cur + 1) "date_filter.rs:YearRange::hint curr+1"
-        else do
+        else if (cur - r.lo) % r.step = 0 then pure ((cur : Int) + 1)
+        else
           let x := cur - r.lo
-          let up ← u16 (r.step * ((x + r.step - 1) / r.step)) "date_filter.rs:YearRange::hint round_up"
-          u16 (r.lo + up) "date_filter.rs:YearRange::hint start+round_up"
+          pure ((r.lo : Int) + ((r.step * ((x + r.step - 1) / r.step) : Nat) : Int))
       pure (some ((ofYmd? next 1 1).getD dateEnd))
 
 /-! ### month and date ranges -/
@@ -194,20 +198,55 @@ def boundsOn (ds : DateSpec) (off : DateOffset) (after : Bool) : List Int → M 
       let d' ← off.apply d
       pure (d' :: rest)
 
-def isFeb29 (ds : DateSpec) : Bool := ds == .fixed none 2 29
+/-- `date_year` -/
+def dateYear : DateSpec → Option Int
+  | .fixed y _ _ => y.map (fun (n : Nat) => (n : Int))
+  | .easter y => y.map (fun (n : Nat) => (n : Int))
 
-/-- the lazy scan `(year - 1..=DATE_END.year()).filter_map(Feb 29).map(offsets)` consumed by
-`find(|rg| rg.end >= date)`: first leap-day interval whose end is not before `d` -/
-def feb29Find (so eo : DateOffset) (d : Day) : Nat → Int → M (Option (Day × Day))
-  | 0, _ => .ok none
-  | fuel + 1, y =>
-    if y > 10000 then .ok none
-    else match ofYmd? y 2 29 with
-      | none => feb29Find so eo d fuel (y + 1)
-      | some f => do
-        let s ← so.apply f
-        let e ← eo.apply f
-        if e ≥ d then pure (some (s, e)) else feb29Find so eo d fuel (y + 1)
+/-- the lazy `(y0-1..=y0+2).filter_map(end on y).map(offset).find(>= start)` of
+`single_interval_from_bounds` -/
+def firstEndFrom (e : DateSpec) (eo : DateOffset) (start : Int) : List Int → M (Option Int)
+  | [] => .ok none
+  | y :: ys => do
+    match ← dateOnYear e y false with
+    | none => firstEndFrom e eo start ys
+    | some d => do
+      let d' ← eo.apply d
+      if d' ≥ start then pure (some d') else firstEndFrom e eo start ys
+
+/-- `single_interval_from_bounds`: `none` when the start carries no year (or cannot be built) -/
+def singleInterval (s : DateSpec) (so : DateOffset) (e : DateSpec) (eo : DateOffset) : M (Option (Int × Int)) :=
+  match dateYear s with
+  | none => .ok none
+  | some sy => do
+    match ← dateOnYear s sy true with
+    | none => pure none
+    | some s0 => do
+      let start ← so.apply s0
+      match dateYear e with
+      | some ey => do
+        match ← dateOnYear e ey false with
+        | none => pure none
+        | some e0 => do
+          let stop ← eo.apply e0
+          pure (some (start, stop))
+      | none => do
+        let y0 := year start
+        match ← firstEndFrom e eo start [y0 - 1, y0, y0 + 1, y0 + 2] with
+        | some stop => pure (some (start, stop))
+        | none => pure (some (start, dateEnd))
+
+/-- `single_day_intervals(..)` consumed by `find(|rg| rg.end >= date)`: first occurrence of the
+single day `m/dd` (years where it exists only) whose shifted end is not before `d` -/
+def singleDayFind (m dd : Nat) (so eo : DateOffset) (d : Int) : List Int → M (Option (Int × Int))
+  | [] => .ok none
+  | y :: ys =>
+    match ofYmd? y m dd with
+    | none => singleDayFind m dd so eo d ys
+    | some f => do
+      let s ← so.apply f
+      let e ← eo.apply f
+      if e ≥ d then pure (some (s, e)) else singleDayFind m dd so eo d ys
 
 def yearsAround (y : Int) (before after : Nat) : List Int :=
   (List.range (before + after + 1)).map (fun (i : Nat) => y - (before : Int) + (i : Int))
@@ -219,14 +258,18 @@ def MonthdayRange.filter (r : MonthdayRange) (d : Day) : M Bool :=
     .ok ((yr.getD inYear == inYear) && wrappingContains lo hi (Cal.month d))
   | .date s so e eo => do
     let y := year d
-    if isFeb29 s && isFeb29 e then
-      match ← feb29Find so eo d (10000 - (y - 1) + 1).toNat (y - 1) with
-      | none => pure false
-      | some r => pure (r.1 ≤ d && d ≤ r.2)
-    else
-      let starts ← boundsOn s so true (yearsAround y 1 1)
-      let ends ← boundsOn e eo false (yearsAround y 1 1)
-      pure (isOpenFromIntervals d (intervalsFromBounds starts ends))
+    match ← singleInterval s so e eo with
+    | some iv => pure (iv.1 ≤ d && d ≤ iv.2)
+    | none =>
+      match s, (s == e : Bool) with
+      | .fixed none m dd, true =>
+        match ← singleDayFind m dd so eo d (yearsAround y 1 1) with
+        | none => pure false
+        | some r => pure (r.1 ≤ d && d ≤ r.2)
+      | _, _ =>
+        let starts ← boundsOn s so true (yearsAround y 1 1)
+        let ends ← boundsOn e eo false (yearsAround y 1 1)
+        pure (isOpenFromIntervals d (intervalsFromBounds starts ends))
 
 def MonthdayRange.hint (r : MonthdayRange) (d : Day) : M (Option Day) :=
   match r with
@@ -252,29 +295,20 @@ def MonthdayRange.hint (r : MonthdayRange) (d : Day) : M (Option Day) :=
       | some a1, some a2, some b1, some b2 =>
         .ok (some (nextChangeFromIntervals d (intervalsFromBounds [a1, a2] [b1, b2])))
       | _, _, _, _ => .ok none
-  | .date (.fixed (some sy) sm sd) so (.fixed ey em ed) eo =>
-    match ofYmd? sy sm sd with
-    | none => .ok none
-    | some s0 => do
-      let start ← so.apply s0
-      match ofYmd? ((ey.getD sy : Nat) : Int) em ed with
-      | none => pure none
-      | some e0 => do
-        let cand ← eo.apply e0
-        let stop := if start ≤ cand then some cand else withYear? cand (year cand + 1)
-        match stop with
-        | none => pure none
-        | some stop => pure (some (nextChangeFromIntervals d (intervalsFromBounds [start] [stop])))
   | .date s so e eo => do
     let y := year d
-    if isFeb29 s && isFeb29 e then
-      match ← feb29Find so eo d (10000 - (y - 1) + 1).toNat (y - 1) with
-      | none => pure (some dateEnd)
-      | some r => pure (some (if r.1 ≤ d then (succ? r.2).getD dateEnd else r.1))
-    else
-      let starts ← boundsOn s so true (yearsAround y 1 10)
-      let ends ← boundsOn e eo false (yearsAround y 1 10)
-      pure (some (nextChangeFromIntervals d (intervalsFromBounds starts ends)))
+    match ← singleInterval s so e eo with
+    | some iv => pure (some (nextChangeFromIntervals d [iv]))
+    | none =>
+      match s, (s == e : Bool) with
+      | .fixed none m dd, true =>
+        match ← singleDayFind m dd so eo d (yearsAround y 1 10) with
+        | none => pure (some dateEnd)
+        | some r => pure (some (if r.1 ≤ d then (succ? r.2).getD dateEnd else r.1))
+      | _, _ =>
+        let starts ← boundsOn s so true (yearsAround y 1 10)
+        let ends ← boundsOn e eo false (yearsAround y 1 10)
+        pure (some (nextChangeFromIntervals d (intervalsFromBounds starts ends)))
 
 /-! ### weekday and holiday ranges -/
 
@@ -293,7 +327,7 @@ def nthGet (l : List Bool) (i : Nat) (site : String) : M Bool :=
 
 /-- non-wrapping case of `WeekDayRange::Fixed::filter` -/
 def wdayFixedSimple (lo hi : Nat) (offset : Int) (ns ne : List Bool) (d : Day) : M Bool := do
-  let d' ← addDays d (-offset) "date_filter.rs:WeekDayRange::filter date - offset"
+  let d' := addDaysSat d (satNeg offset)
   let dom := dayOfMonth d'
   let posStart := (dom - 1) / 7
   let cnt ← countDaysInMonth d'
@@ -314,7 +348,7 @@ def WeekDayRange.filter (ctx : Ctx) (r : WeekDayRange) (d : Day) : M Bool :=
       else wdayFixedSimple 0 hi offset ns ne d
     else wdayFixedSimple lo hi offset ns ne d
   | .holiday k offset => do
-    let d' ← addDays d (-offset) "date_filter.rs:Holiday::filter date - offset"
+    let d' := addDaysSat d (satNeg offset)
     pure (calContains (match k with | .pub => ctx.pub | .school => ctx.school) d')
 
 def WeekDayRange.hint (ctx : Ctx) (r : WeekDayRange) (d : Day) : M (Option Day) :=
@@ -322,13 +356,11 @@ def WeekDayRange.hint (ctx : Ctx) (r : WeekDayRange) (d : Day) : M (Option Day) 
   | .fixed .. => .ok none
   | .holiday k offset => do
     let cal := match k with | .pub => ctx.pub | .school => ctx.school
-    let d' ← addDays d (-offset) "date_filter.rs:Holiday::hint date - offset"
+    let d' := addDaysSat d (satNeg offset)
     if calContains cal d' then pure (succ? d)
     else match calFirstAfter cal d' with
       | none => pure (some dateEnd)
-      | some f => do
-        let r ← addDays f offset "date_filter.rs:Holiday::hint following + offset"
-        pure (some r)
+      | some f => pure (some (addDaysSat f offset))
 
 /-! ### week ranges -/
 
@@ -475,7 +507,7 @@ def scheduleStep (ctx : Ctx) (d : Day) (st : Bool × Option Schedule) (r : Rule)
       | some p, some c => some (p.addition c)
       | p, c => p <|> c)
   | .fallback, _ =>
-    if prevMatch && !((prevEval.map Schedule.isAlwaysClosed).getD false) then pure (prevMatch, prevEval)
+    if !((prevEval.map Schedule.isAlwaysClosed).getD true) then pure (prevMatch, prevEval)
     else pure (currMatch, currEval)
 
 def foldM' {σ α} (f : σ → α → M σ) : σ → List α → M σ
